@@ -80,7 +80,9 @@ class BaseNode(Node):
             value = None
         elif self.dimension or self.value_slice:
             # cast multidimensional values
-            if isinstance(value, str):
+            if isinstance(value, str) and self.keyword=='str' and self.value_slice and not value.lstrip().startswith('['):
+                pass  # slicing a plain string
+            elif isinstance(value, str):
                 value = np.array(json.loads(value), dtype=self.dtype)
             else:
                 value = np.array(value, dtype=self.dtype)
